@@ -6,6 +6,7 @@ import BespokeVerif.Model.Layout
 import BespokeVerif.Lemmas.Layout
 import BespokeVerif.Props.C02
 import BespokeVerif.Lemmas.Parse
+import BespokeVerif.Lemmas.Include
 namespace BV.C05
 open BV
 
@@ -314,6 +315,120 @@ theorem zone_concatenates (cfg : Cfg) (mid : List Line) (l₁ l₂ : Line) (st :
   rw [hz'] at hget
   rw [hz] at hget
   rw [C02.placed_at_cursor cfg zsA LA l₂ p₂ zsB LB z' hstep hget hm, hc]
+
+/-! ### whole programs: the invariants hold from the first statement to the last -/
+
+/-- the first pass never changes the bounds of the zone found under a name -/
+theorem firstPass_bounds (cfg : Cfg) : ∀ (lines : List Line) (st : Zones × Labels) (out : List Placed) (zsF : Zones) (L : Labels),
+    firstPass cfg lines st = .ok (out, zsF, L) → ∀ (m : String) (g : Zone), st.1.get? m = some g →
+    ∃ g', zsF.get? m = some g' ∧ g'.start = g.start ∧ g'.stop = g.stop := by
+  intro lines
+  induction lines with
+  | nil =>
+    intro st out zsF L h m g hg
+    simp [firstPass] at h
+    rw [← h.2.1]; exact ⟨g, hg, rfl, rfl⟩
+  | cons ln rest ih =>
+    intro st out zsF L h m g hg
+    obtain ⟨p1, zs1, L1, ps, h1, h2, _⟩ := firstPass_cons_ok h
+    obtain ⟨z₀, addr, size, _, _, hs, _, _⟩ := firstPassStep_ok (zs := st.1) (L := st.2) h1
+    obtain ⟨g1, hg1, hs1, he1⟩ := Zones.setCur_get?_bounds hs hg
+    obtain ⟨g', hg', hs', he'⟩ := ih (zs1, L1) ps zsF L h2 m g1 hg1
+    exact ⟨g', hg', by omega, by omega⟩
+
+/-- Confinement for a whole program: starting from any zone table whose cursors lie inside their zones
+    (`initZones_inv`, `createZone_preserves`), every byte-producing line of every length the first pass
+    places lies inside the inclusive range of the zone it was assembled in - the bounds that zone has at
+    the end, which are the bounds it always had. -/
+theorem firstPass_confines (cfg : Cfg) : ∀ (lines : List Line) (st : Zones × Labels) (out : List Placed) (zsF : Zones) (L : Labels),
+    firstPass cfg lines st = .ok (out, zsF, L) → ZonesInv st.1 →
+    ∀ p ∈ out, isByteLine p.line.stmt = true → 0 < p.size →
+      ∃ z, zsF.get? p.line.zone = some z ∧ z.start ≤ p.addr ∧ p.addr + p.size - 1 ≤ z.stop := by
+  intro lines
+  induction lines with
+  | nil =>
+    intro st out zsF L h _ p hp
+    simp [firstPass] at h
+    rw [h.1] at hp; cases hp
+  | cons ln rest ih =>
+    intro st out zsF L h hi p hp hb hpos
+    obtain ⟨p1, zs1, L1, ps, h1, h2, rfl⟩ := firstPass_cons_ok h
+    have hinv1 : ZonesInv zs1 := by
+      obtain ⟨z₀, addr, size, _, _, hs, _, _⟩ := firstPassStep_ok (zs := st.1) (L := st.2) h1
+      exact setCur_preserves_inv hs hi
+    rcases List.mem_cons.mp hp with rfl | hp'
+    · obtain ⟨z₀, addr, size, hz₀, _, hs, _, hpe⟩ := firstPassStep_ok (zs := st.1) (L := st.2) h1
+      have hline : p.line = ln := by rw [hpe]
+      rw [hline] at hb ⊢
+      have hc := zone_confines cfg st.1 st.2 ln p zs1 L1 z₀ h1 hz₀ hi hb hpos
+      obtain ⟨g1, hg1, hs1, he1⟩ := Zones.setCur_get?_bounds hs hz₀
+      obtain ⟨g', hg', hs', he'⟩ := firstPass_bounds cfg rest (zs1, L1) ps zsF L h2 ln.zone g1 hg1
+      exact ⟨g', hg', by omega, by omega⟩
+    · exact ih (zs1, L1) ps zsF L h2 hinv1 p hp' hb hpos
+
+/-- the invariants survive the whole first pass -/
+theorem firstPass_inv (cfg : Cfg) : ∀ (lines : List Line) (st : Zones × Labels) (out : List Placed) (zsF : Zones) (L : Labels),
+    firstPass cfg lines st = .ok (out, zsF, L) → ZonesInv st.1 → InGlobal st.1 → ZonesInv zsF ∧ InGlobal zsF := by
+  intro lines
+  induction lines with
+  | nil =>
+    intro st out zsF L h hi hg
+    simp [firstPass] at h
+    rw [← h.2.1]; exact ⟨hi, hg⟩
+  | cons ln rest ih =>
+    intro st out zsF L h hi hg
+    obtain ⟨p1, zs1, L1, ps, h1, h2, _⟩ := firstPass_cons_ok h
+    obtain ⟨hi1, hg1⟩ := firstPassStep_inv cfg st.1 st.2 ln p1 zs1 L1 h1 hi hg
+    exact ih (zs1, L1) ps zsF L h2 hi1 hg1
+
+/-- End to end, no hypothesis on the zone table: for every program the model places (any ISA zone
+    configuration that `initZones` accepts, any zones the source creates, any includes), every
+    byte-producing source line of positive size lies inside the inclusive range of the zone it was
+    assembled in AND inside GLOBAL. (`sorted` additionally holds the predefined data blocks of the ISA
+    configuration, which are placed at their configured addresses without a zone check.) -/
+theorem program_lines_confined (cfg : Cfg) (files : List (List Stmt)) (sorted : List Placed) (L : Labels)
+    (h : assemblePlaced cfg files = .ok (sorted, L)) :
+    ∃ (placed : List Placed) (zsF : Zones) (g : Zone), sorted = sortByAddr (placed ++ predefinedLines cfg) ∧
+      zsF.get? "GLOBAL" = some g ∧
+      ∀ p ∈ placed, isByteLine p.line.stmt = true → 0 < p.size →
+        ∃ z, zsF.get? p.line.zone = some z ∧ z.start ≤ p.addr ∧ p.addr + p.size - 1 ≤ z.stop ∧
+          g.start ≤ p.addr ∧ p.addr + p.size - 1 ≤ g.stop := by
+  unfold assemblePlaced at h
+  cases h0 : initLabels cfg with
+  | error e => rw [h0] at h; cases h
+  | ok L0 =>
+    rw [h0] at h
+    simp only [bind, Except.bind] at h
+    cases hz : initZones cfg.bits cfg.origin cfg.preZones with
+    | error e => rw [hz] at h; cases h
+    | ok zs0 =>
+      rw [hz] at h
+      simp only at h
+      cases hr : readFile cfg files (files.length + 1) 0 { labels := L0, zones := zs0, used := [], nextLoc := 0, syms := cfg.preSyms } with
+      | error e => rw [hr] at h; cases h
+      | ok rr =>
+        obtain ⟨lines, st⟩ := rr
+        rw [hr] at h
+        simp only at h
+        cases hf : firstPass cfg lines (st.zones, st.labels) with
+        | error e => rw [hf] at h; cases h
+        | ok fr =>
+          obtain ⟨placed, zsF, Lf⟩ := fr
+          rw [hf] at h
+          simp only [Except.ok.injEq, Prod.mk.injEq] at h
+          obtain ⟨rfl, rfl⟩ := h
+          have hinit := initZones_inv cfg.bits cfg.origin cfg.preZones zs0 hz
+          have hread : ZonesInv st.zones ∧ InGlobal st.zones :=
+            readFile_zones_pred (fun zs => ZonesInv zs ∧ InGlobal zs) cfg
+              (fun zs name s e zs' hc hp => createZone_preserves cfg.bits zs zs' name s e hc hp.1 hp.2)
+              files _ _ _ _ _ hr hinit
+          obtain ⟨hiF, hgF⟩ := firstPass_inv cfg lines _ placed zsF Lf hf hread.1 hread.2
+          obtain ⟨g, hgg, hall⟩ := hgF
+          refine ⟨placed, zsF, g, rfl, hgg, ?_⟩
+          intro p hp hb hpos
+          obtain ⟨z, hzz, h1, h2⟩ := firstPass_confines cfg lines _ placed zsF Lf hf hread.1 p hp hb hpos
+          have := hall z (Zones.get?_mem hzz)
+          exact ⟨z, hzz, h1, h2, by omega, by omega⟩
 
 /-! ### the text level: a zone / origin directive and what follows it on the same source line
 
